@@ -53,8 +53,10 @@ RowClause(n, P(_), clause, D(_)) ==
 ----------------------------------------------------------------------------
 (* 1-D windows as the property states them *)
 IsPin(cls) == cls = "Pinhole1D"
-WinLo(cls, q, sigma, L, W, i) == IF IsPin(cls) THEN FSub(q[i], FMul("2.5", sigma[i])) ELSE FSub(q[i], W[i])
-WinHi(cls, q, sigma, L, W, i) == IF IsPin(cls) THEN FAdd(q[i], FMul("3.0", sigma[i]))
+\* (ns = <<low, high>>: the Gaussian is cut at q - low*sigma and q + high*sigma; <<2.5, 3>> unless the caller says otherwise)
+DefaultNs == <<"2.5", "3.0">>
+WinLo(cls, q, sigma, L, W, i, ns) == IF IsPin(cls) THEN FSub(q[i], FMul(ns[1], sigma[i])) ELSE FSub(q[i], W[i])
+WinHi(cls, q, sigma, L, W, i, ns) == IF IsPin(cls) THEN FAdd(q[i], FMul(ns[2], sigma[i]))
                                  ELSE FSqrt(FAdd(Sq(FAdd(q[i], W[i])), Sq(L[i])))
 ZeroW(cls, sigma, L, W, i) == IF IsPin(cls) THEN FEq(sigma[i], Zero) ELSE FEq(L[i], Zero) /\ FEq(W[i], Zero)
 
@@ -66,10 +68,10 @@ QcalcPositive(qc) == Bad(\A j \in 1..Len(qc) : FLt(Zero, qc[j]), "qcalc-positive
    "One bin" is the step the extension algorithm promises: linear extrapolation uses the first /
    last data interval (15 steps for a single point), geometric extrapolation the mean ratio of
    the data (10 points per decade for a single point). *)
-Covers(cls, q, sigma, L, W, qc) ==
+Covers(cls, q, sigma, L, W, qc, ns) ==
     LET n == Len(q)
-        lo == VMin([i \in 1..n |-> WinLo(cls, q, sigma, L, W, i)])
-        hi == VMax([i \in 1..n |-> WinHi(cls, q, sigma, L, W, i)])
+        lo == VMin([i \in 1..n |-> WinLo(cls, q, sigma, L, W, i, ns)])
+        hi == VMax([i \in 1..n |-> WinHi(cls, q, sigma, L, W, i, ns)])
         cut == FMul("0.02", q[1])
         target == FMax(lo, cut)
         minc == VMin(qc)
@@ -116,7 +118,7 @@ ApplyRes1D(e) ==
          \o Bad(\A k \in full : FVecBits(e.probes[k].out, e.probes[k].theory), "zero-width-identity", "Perfect1D")
     ELSE
        QcalcPositive(qc)
-       \o (IF e.supplied THEN <<>> ELSE Covers(e.cls, e.q, sigma, L, W, qc))
+       \o (IF e.supplied THEN <<>> ELSE Covers(e.cls, e.q, sigma, L, W, qc, e.nsig))
        \o (IF ~e.haverows THEN <<>> ELSE
              RowClause(n, LAMBDA i : FVecAllFinite(e.rows[i]), "weights-finite", LAMBDA i : "")
              \o RowClause(n, LAMBDA i : ~FVecAllFinite(e.rows[i]) \/ FVecAllGeq(e.rows[i], Zero), "weights-nonnegative",
@@ -169,7 +171,19 @@ Checks2D(qx, qy, dqx, dqy, acc, qxc, qyc) ==
                           "covers-high", LAMBDA j : <<qabs(j), sg(j), VMax(col(j))>>)
              \o RowClause(nq, LAMBDA j : FLt(FMul("3.0", sg(j)), qabs(j)) =>
                                          FLeq(VMin(col(j)), FMul(FSub(qabs(j), FDiv(FMul(reach, sg(j)), Fudge)), Fudge)),
-                          "covers-low", LAMBDA j : <<qabs(j), sg(j), VMin(col(j))>>))
+                          "covers-low", LAMBDA j : <<qabs(j), sg(j), VMin(col(j))>>)
+             \* the window is the pixel's own: the sampling points of pixel j (rings x evenly spaced angles) are
+             \* centred on (qx[j], qy[j]) - or on its image under inversion, (-qx[j], -qy[j]), where every scattering
+             \* intensity takes the same values (I(-q) = I(q); resolution2d works with q_phi = arctan(qy/qx), which
+             \* folds the left half of the detector onto the right half by inversion)
+             \o RowClause(nq, LAMBDA j : LET cx == FDiv(FSum(RColumn(qxc, j, nq, nb)), FFromInt(nb))
+                                            cy == FDiv(FSum(RColumn(qyc, j, nq, nb)), FFromInt(nb))
+                                            tolc == FMul("1e-9", FAdd(qabs(j), FAdd(sg(j), FMax(dqy[j], "1e-10"))))
+                                        IN \/ FNear(cx, qx[j], "0.0", tolc) /\ FNear(cy, qy[j], "0.0", tolc)
+                                           \/ FNear(cx, FNeg(qx[j]), "0.0", tolc) /\ FNear(cy, FNeg(qy[j]), "0.0", tolc),
+                          "window-centred-on-pixel",
+                          LAMBDA j : <<"pixel", qx[j], qy[j], "centre of its sampling points",
+                                       FDiv(FSum(RColumn(qxc, j, nq, nb)), FFromInt(nb)), FDiv(FSum(RColumn(qyc, j, nq, nb)), FFromInt(nb))>>))
 
 ApplyRes2D(e) ==
     LET nq == Len(e.qx)
@@ -225,7 +239,7 @@ ApplyDirect(e) ==
            THEN (IF e.haswidth THEN Checks2D(e.qx, e.qy, e.dqx, e.dqy, Lower(e.acc), e.qxc, e.qyc)
                  ELSE Bad(FVecBits(e.qxc, e.qx) /\ FVecBits(e.qyc, e.qy), "perfect-qcalc-is-q", ""))
            ELSE QcalcPositive(e.qcalc)
-                \o (IF clsW \in {"Pinhole1D", "Slit1D"} THEN Covers(clsW, e.q, sigma, L, W, e.qcalc) ELSE <<>>))
+                \o (IF clsW \in {"Pinhole1D", "Slit1D"} THEN Covers(clsW, e.q, sigma, L, W, e.qcalc, DefaultNs) ELSE <<>>))
        \o (IF allzero
            THEN Bad(FVecBits(e.base, e.unsmeared), "zero-width-identity", ToString(<<"resolution class", cls>>))
            ELSE IF two THEN <<>>
